@@ -413,6 +413,13 @@ let suite_log t v =
   let iparsed = times np (fun () ->
     let n = bytes_of_hex (next t) in let r = bytes_of_hex (next t) in let h = bytes_of_hex (next t) in
     let sz = next t in let tm = next t in (n, r, h, sz, tm)) in
+  (* optional: the same look-ups made BEFORE anything was written, on the same log object *)
+  if not (eol t) then begin
+    expect t "P";
+    let k = ni t in
+    let early = times k (fun () -> nb t) in
+    if List.exists (fun a -> a) early then oracle v "found_before_written" false
+  end;
   let lg = List.map (fun (off, ls) -> (z_of_int (d0 + off), ls)) raw in
   let colon = ref false in
   List.iter (fun (_, rs) -> List.iter (fun (n, r, h, _) -> if has_colon n || has_colon r || has_colon h then colon := true) rs) days;
@@ -956,6 +963,8 @@ let suite_e2e t v =
   if fi "confirmed_left_unrecorded" > 0 then oracle v "confirmed_left_unrecorded_at_exit" false;
   (* C08 *)
   if fi "sent_before_all_acked" > 0 then oracle v "logged_sent_before_all_bytes_acknowledged" false;
+  (* ... and no part is skipped: what a recovery answer counts as held is on the receiver's record *)
+  if fi "recovery_overcount" > 0 then oracle v "part_counted_as_held_not_on_record" false;
   (* C17 / C01 *)
   if fi "ineligible_touched" > 0 then oracle v "ineligible_file_sent_or_deleted" false;
   if fi "alien_final" > 0 then oracle v "delivered_mixture_of_versions" false;
